@@ -185,6 +185,27 @@ def searchsorted(a, v, side):
     return out
 
 
+def argsort(a, stable):
+    c = cur()
+    if a.ndim != 1 or a.kind != "int":
+        raise Unsupported("argsort of a non-integer or non 1-D array")
+    n = dim_term(a.shape_[0])
+    snap = a.snapshot()
+    perm = z3.Function(fresh_name("perm"), z3.IntSort(), z3.IntSort())
+    inv = z3.Function(fresh_name("inv"), z3.IntSort(), z3.IntSort())
+    c.assume_forall("argsort.range", lambda t: z3.Implies(z3.And(0 <= t, t < n), z3.And(0 <= perm(t), perm(t) < n, inv(perm(t)) == t)))
+    c.assume_forall("argsort.onto", lambda j: z3.Implies(z3.And(0 <= j, j < n), z3.And(0 <= inv(j), inv(j) < n, perm(inv(j)) == j)))
+    c.assume_forall("argsort.sorted", lambda t: z3.Implies(z3.And(0 <= t, t + 1 < n), snap(perm(t)) <= snap(perm(t + 1))))
+    c.assume_forall("argsort.sorted (pairwise; lemma adjacent-sorted=>sorted)",
+                    lambda s_, t: z3.Implies(z3.And(0 <= s_, s_ <= t, t < n), snap(perm(s_)) <= snap(perm(t))), arity=2)
+    if stable:
+        c.assume_forall("argsort.stable", lambda t: z3.Implies(z3.And(0 <= t, t + 1 < n, snap(perm(t)) == snap(perm(t + 1))), perm(t) < perm(t + 1)))
+    out = SymArr.fresh((n,), lambda t: perm(t), "int", _np.intp)
+    out.argsort = {"perm": perm, "inv": inv, "a": snap, "n": n}
+    c.ghost.setdefault("argsorts", []).append(out.argsort)
+    return out
+
+
 def bincount(x, weights, minlength):
     c = cur()
     if weights is not None:
